@@ -108,6 +108,8 @@ def run_check(pid, tier="quick", seed=None, replay=None, keep=None):
     seed = env.SEED if seed is None else seed
     mod = load_prop(pid)
     os.makedirs(env.EVIDENCE, exist_ok=True)
+    if env.REPO != "/repo":
+        env.REPLAYS = os.path.join(env.WORK, "replays-other-tree")
     os.makedirs(env.REPLAYS, exist_ok=True)
     known = load_known()
     known_keys = {k["key"]: k for k in known if k.get("status") == "known" and k.get("property") == pid}
@@ -250,7 +252,12 @@ def run_check(pid, tier="quick", seed=None, replay=None, keep=None):
         "violations": nviol,
     }
     if not replay and keep is None:
-        with open(os.path.join(env.EVIDENCE, "%s.json" % pid), "w") as fh:
+        evdir = env.EVIDENCE
+        if env.REPO != "/repo" or os.environ.get("VERIF_EVIDENCE_DIR"):
+            # audits against scratch copies must not overwrite the evidence of the tree under /repo
+            evdir = os.environ.get("VERIF_EVIDENCE_DIR") or os.path.join(env.WORK, "evidence-other-tree")
+            os.makedirs(evdir, exist_ok=True)
+        with open(os.path.join(evdir, "%s.json" % pid), "w") as fh:
             json.dump(ev, fh, indent=1, default=_jdefault)
 
     # ---- report
